@@ -20,7 +20,7 @@ PID = "C17"
 MODULE = "Check.C17"
 VERDICT = "verdict_C17"
 CLASS_BITS = {16: "K_import_visible", 32: "K_defined_later"}
-NCASES = (50, 1500)
+NCASES = (130, 1500)
 RULE = ("part 1: generator P modules (test / fixture bodies with every statement and expression form around fixture names, every "
         "binding form for locals) below a conftest that defines db / client / fx_a / cls and star-imports srv, beside a sibling directory pk/ whose conftest defines cfg; one evaluation = the "
         "undeclared records of one module; part 2: one evaluation = one quick fix or completion edit applied and re-parsed; "
@@ -92,7 +92,7 @@ def run(r):
     quick = r.tier == "quick"
     core.coq_make(["theories/Check/C17.vo"])
     rnd = random.Random(r.seed + 1717)
-    stats, bad, kcases = explore_edits(r, rnd, int(os.environ.get("VERIF_EDIT_DOCS", 12 if quick else 250)))
+    stats, bad, kcases = explore_edits(r, rnd, int(os.environ.get("VERIF_EDIT_DOCS", 30 if quick else 250)))
     for k, b in enumerate(bad[:3]):
         r.violation(dict({"property": PID, "part": "edits"}, **b), "edit_%d" % k)
     # the edits that are right must also be the model's insertion (Model/ParamEdit.v)
